@@ -9,7 +9,8 @@ C16.R3        token-exact matching structure of Message::checkLevel
 import facts
 from facts import AnalysisBroken, Explorer
 
-SINK_METHODS = ('decodeLastData', 'decodeLastDataNumField', 'decodeJson', 'setPollPriority', 'prepareMaster', 'storeLastData')
+SINK_METHODS = ('decodeLastData', 'decodeLastDataNumField', 'decodeJson', 'setPollPriority', 'prepareMaster', 'storeLastData',
+                'getLastSlaveData', 'getLastMasterData', 'getLastData')
 HANDLERS = {
     'ebusd::MainLoop::executeRead': 1,     # index of the parameter carrying the caller's level list
     'ebusd::MainLoop::executeWrite': 1,
@@ -372,7 +373,47 @@ def r3(ctx):
     ctx.ob('C16.R3', hl, hl.body, ok, 'hasLevel', rk[:160])
 
 
+def r4(ctx):
+    ctx.rule('C16.R4', 'the two level-filtered lookups filter every candidate itself: MessageMap::find(circuit, name, levels, '
+             '...) returns a message only after hasLevel(levels) of that very message was true, and MessageMap::findAll '
+             'appends a message to the result only after hasLevel(levels, ...) of that very message was true or the level '
+             'list is the wildcard', minimum=2, star=True)
+    fb = ctx.fb
+    n = 0
+    fa = fb.fn('ebusd::MessageMap::findAll')
+    ctx.touch(fa)
+    lv = fa.P(2)
+    wild = fa.local_where(lambda k, r: k in ('(%s != "*")' % lv, '!(%s == "*")' % lv, 'std::operator!=(%s,"*")' % lv))
+    for c in fa.all('CXXMemberCallExpr'):
+        v = fa.nodes[c]
+        if not (v.get('callee') or '').endswith('::push_back') or not v.get('args'):
+            continue
+        mv = fa.key(v['args'][0])
+        n += 1
+        alts = [(w, False) for w in wild] + [('%s.hasLevel(%s,%s)' % (mv, lv, fa.P(7)), True), ('%s.hasLevel(%s)' % (mv, lv), True),
+                                              ('%s.hasLevel(%s,#1)' % (mv, lv), True)]
+        ok = fa.needs_one_of(c, alts)
+        ctx.ob('C16.R4', fa, c, ok, 'findAll appends %s' % mv, 'hasLevel(%s) of the appended message dominates: %s' % (lv, ok))
+    fi = [f for f in fb.fns('ebusd::MessageMap::find') if 'MasterSymbolString' not in f.sig and len(f.params) >= 3]
+    if len(fi) != 1:
+        raise AnalysisBroken('C16.R4: MessageMap::find(circuit, name, levels, ...) not found')
+    fi = fi[0]
+    ctx.touch(fi)
+    lv = fi.P(2)
+    for r in fi.all('ReturnStmt'):
+        rv = fi.nodes[r].get('val')
+        if rv is None or fi.val(rv) == 0 or fi.key(rv) == '#0':
+            continue
+        mv = fi.key(rv)
+        n += 1
+        ok = fi.needs_one_of(r, [('%s.hasLevel(%s,#1)' % (mv, lv), True), ('%s.hasLevel(%s)' % (mv, lv), True)])
+        ctx.ob('C16.R4', fi, r, ok, 'find returns %s' % mv, 'hasLevel(%s) of the returned message dominates: %s' % (lv, ok))
+    if n < 2:
+        raise AnalysisBroken('C16.R4: only %d result sites found' % n)
+
+
 def run(ctx):
     r1(ctx)
     r2(ctx)
     r3(ctx)
+    r4(ctx)
